@@ -45,7 +45,12 @@ ORPHAN_MECH = ("killed between the commit that deletes detached nodes (or revert
 def gen_cases(tier, seed):
     n = 12 if tier == "quick" else 160
     per = 10 if tier == "quick" else 40
-    return [{"id": f"c05-{seed}-{i}", "seed": seed * 7001 + i, "points": per} for i in range(n)]
+    cases = [{"id": f"c05-{seed}-{i}", "seed": seed * 7001 + i, "points": per} for i in range(n)]
+    # a sub-plan that is deferred once and run again while the steps it created are running:
+    # every scheduling point (and, in the thorough tier, every commit) is a crash point
+    cases += [{"id": f"c05-deferred-subplan-{seed}-{i}", "seed": seed * 7001 + 5000 + i, "points": per,
+               "scenario": "deferred_subplan", "all_commits": tier != "quick"} for i in range(2 if tier == "quick" else 6)]
+    return cases
 
 
 def run_child(spec, timeout=180):
@@ -82,12 +87,25 @@ def run_case(case):
             violations.append({"mechanism": mechanism, "message": f"{case['id']}: {message}",
                                "witness": json.loads(json.dumps(witness, default=str))})
 
-    spec = gen.gen_project(rng, prob={"optional": 0.4, "hold": 0.4, "hold_defines": 0.6, "defines": 0.4})
-    phases = gen.gen_history(rng, spec, nphase=rng.choice([0, 1, 1, 2]))
+    if case.get("scenario") == "deferred_subplan":
+        from vmon.checks.c02 import directed_deferred_subplan
+        spec = directed_deferred_subplan()
+        # a slow step created by the sub-plan: still running (and detached) when the sub-plan
+        # is dispatched again
+        slow = [{"a": "read", "path": "src/a.txt"}] + [{"a": "gate", "name": f"slow{k}"} for k in range(10)] + \
+            [{"a": "write", "path": "out/slow.txt"}]
+        spec["plans"]["sub"].insert(0, ["raw", {"a": "step", "cmd": "do " + json.dumps(slow),
+                                                "inp": ["src/a.txt"], "out": ["out/slow.txt"]}])
+        phases = []
+    else:
+        spec = gen.gen_project(rng, prob={"optional": 0.4, "hold": 0.4, "hold_defines": 0.6, "defines": 0.4})
+        phases = gen.gen_history(rng, spec, nphase=rng.choice([0, 1, 1, 2]))
     env = dict(spec.get("env", {}))
     witness.update({"spec": spec, "phases": [p["edits"] for p in phases]})
     counters["projects"] += 1
     cfg = {"njob": rng.choice([1, 2, 3]), "resources": "cpu:2,gpu:2"}
+    if case.get("scenario"):
+        cfg["njob"] = rng.choice([3, 4])
     os.makedirs("base")
     cwd = os.getcwd()
     try:
@@ -142,14 +160,21 @@ def run_case(case):
         # always some from the cleanup tail and the startup head
         pick = sorted(set(tail_commits[-4:] + commits[: max(2, budget // 2)] + [1, 2, 3]))
         points += [{"commit": n} for n in pick if 1 <= n <= ncommit]
-        points += [{"gate": n} for n in rng.sample(range(1, ngate + 1), min(ngate, max(2, budget // 4)))]
+        if case.get("scenario"):
+            points = [{"gate": n} for n in range(1, ngate + 1)]
+            if case.get("all_commits"):
+                points += [{"commit": n} for n in range(1, ncommit + 1)]
+        else:
+            points += [{"gate": n} for n in rng.sample(range(1, ngate + 1), min(ngate, max(2, budget // 4)))]
         points += [{"after_write": n} for n in rng.sample(range(1, nwrite + 1), min(nwrite, max(1, budget // 4)))]
         for point in points:
             shutil.rmtree("crash", ignore_errors=True)
             shutil.copytree("base", "crash", symlinks=True)
             os.chdir("crash")
             try:
-                proc, events = run_child({"cfg": cfg, "policy": rng.choice(["free", "jitter"]),
+                policy = rng.choice(["serial", "serial", "jitter"]) if case.get("scenario") else \
+                    rng.choice(["free", "jitter"])
+                proc, events = run_child({"cfg": cfg, "policy": policy,
                                           "seed": rng.randrange(1 << 30), "env": env, "crash": point})
                 killed = [e for e in events if e["type"] == "killed"]
                 if proc.returncode != -9 or not killed:
